@@ -667,6 +667,15 @@ def inline_fresh_temps(rel, module, refnames):
             continue
         want = set(refnames.get(q, ()))
         params = {a.arg for a in fn.args.posonlyargs + fn.args.args + fn.args.kwonlyargs}
+        # attributes of self that some method other than __init__ (re)binds: reading them through a temporary is only stable if no
+        # method is called in between
+        rebound_attrs = set()
+        cls_name = lname.rpartition('.')[0]
+        for ln2, f2 in module.funcs.items():
+            if cls_name and ln2.startswith(cls_name + '.') and not ln2.endswith('.__init__'):
+                for x in ast.walk(f2):
+                    if isinstance(x, ast.Attribute) and isinstance(x.ctx, (ast.Store, ast.Del)) and isinstance(x.value, ast.Name) and x.value.id == 'self':
+                        rebound_attrs.add(x.attr)
         # S20: `a, b = E` with fresh a, b and E a plain name / attribute / subscript: treated as a = E[0]; b = E[1]
         for owner in ast.walk(fn):
             for field in ('body', 'orelse', 'finalbody'):
@@ -766,7 +775,8 @@ def inline_fresh_temps(rel, module, refnames):
                                                 and any(U(x).startswith(a_) for a_ in adeps):
                                             touched = True
                                         if j < last and isinstance(x, ast.Call) and isinstance(x.func, ast.Attribute) \
-                                                and isinstance(x.func.value, ast.Name) and x.func.value.id == 'self':
+                                                and isinstance(x.func.value, ast.Name) and x.func.value.id == 'self' \
+                                                and any(a_.split('.')[1] in rebound_attrs for a_ in adeps if a_.startswith('self.') and '.' in a_):
                                             touched = True        # a method call before the last use may rebind the attribute
                             if touched:
                                 continue
